@@ -243,13 +243,19 @@ impl<T: Send + 'static> ReadyPipeQueue<T> {
           return Err(ZmqError::InvalidState("ready queue closed"));
         }
       };
+      #[cfg(rzmq_verif)]
+      crate::verif::point("rpq.pop.got_slot");
 
       match slot.rx.try_recv() {
         Ok(item) => {
+          #[cfg(rzmq_verif)]
+          crate::verif::point("rpq.pop.taken");
           let prev = slot.queued_count.fetch_sub(1, Ordering::AcqRel);
           slot.reserved_count.fetch_sub(1, Ordering::AcqRel);
           debug_assert!(prev > 0);
           audit_slot(&slot, "pop");
+          #[cfg(rzmq_verif)]
+          crate::verif::point("rpq.pop.decremented");
 
           if prev > 1 {
             cancel_guard!(guard, "ReadyPipeQueue::pop → ready_tx.send");
@@ -298,13 +304,19 @@ impl<T: Send + 'static> ReadyPipeQueue<T> {
         Ok(s) => s,
         Err(_) => return None,
       };
+      #[cfg(rzmq_verif)]
+      crate::verif::point("rpq.try_pop.got_slot");
 
       match slot.rx.try_recv() {
         Ok(item) => {
+          #[cfg(rzmq_verif)]
+          crate::verif::point("rpq.try_pop.taken");
           let prev = slot.queued_count.fetch_sub(1, Ordering::AcqRel);
           slot.reserved_count.fetch_sub(1, Ordering::AcqRel);
           debug_assert!(prev > 0);
           audit_slot(&slot, "try_pop");
+          #[cfg(rzmq_verif)]
+          crate::verif::point("rpq.try_pop.decremented");
 
           if prev > 1 {
             let _ = self.ready_tx.try_send(Arc::clone(&slot));
@@ -372,6 +384,8 @@ impl<T: Send + 'static> ReadyPipeSender<T> {
     // If this future is dropped (tokio::select! picks another branch),
     // the guard's Drop rolls back reserved_count — no leak.
     let mut reservation = SendReservation::new(Arc::clone(&slot));
+    #[cfg(rzmq_verif)]
+    crate::verif::point("rpq.send.reserved");
 
     match slot.tx.try_send(item) {
       Ok(()) => {}
@@ -386,11 +400,15 @@ impl<T: Send + 'static> ReadyPipeSender<T> {
       }
       Err(TrySendError::Sent(_)) => unreachable!(),
     }
+    #[cfg(rzmq_verif)]
+    crate::verif::point("rpq.send.written");
 
     // Message is committed to the channel. Seal the reservation so Drop
     // does not roll it back; the consumer's pop() will release it instead.
     let prev = slot.queued_count.fetch_add(1, Ordering::AcqRel);
     reservation.commit();
+    #[cfg(rzmq_verif)]
+    crate::verif::point("rpq.send.counted");
 
     if prev == 0 {
       cancel_guard!(cd, "ReadyPipeSender::send → ready_tx.send");
@@ -416,9 +434,13 @@ impl<T: Send + 'static> ReadyPipeSender<T> {
 
     // If this returns an error, the reservation is dropped (rolled back).
     slot.tx.try_send(item)?;
+    #[cfg(rzmq_verif)]
+    crate::verif::point("rpq.try_send.written");
 
     let prev = slot.queued_count.fetch_add(1, Ordering::AcqRel);
     reservation.commit();
+    #[cfg(rzmq_verif)]
+    crate::verif::point("rpq.try_send.counted");
 
     if prev == 0 {
       // 0→1 transition: ready queue capacity must be >= max registered
@@ -455,6 +477,8 @@ impl<T: Send + 'static> ReadyPipeSender<T> {
 
     // Bulk reservation upfront — one atomic instead of N.
     slot.reserved_count.fetch_add(n, Ordering::AcqRel);
+    #[cfg(rzmq_verif)]
+    crate::verif::point("rpq.batch.reserved");
 
     let mut sent_batches = 0usize;
     let mut total_weight = 0usize;
@@ -466,12 +490,16 @@ impl<T: Send + 'static> ReadyPipeSender<T> {
         Ok(()) => {
           sent_batches += 1;
           total_weight += weight;
+          #[cfg(rzmq_verif)]
+          crate::verif::point("rpq.batch.written");
           // Inline increment — consumer may pop the item before the batch ends;
           // updating immediately keeps queued_count >= physical channel occupancy.
           let prev = slot.queued_count.fetch_add(1, Ordering::AcqRel);
           if prev == 0 {
             had_zero_transition = true;
           }
+          #[cfg(rzmq_verif)]
+          crate::verif::point("rpq.batch.counted");
         }
         Err(TrySendError::Full(returned)) => {
           items.push_front(returned);
@@ -491,6 +519,8 @@ impl<T: Send + 'static> ReadyPipeSender<T> {
         .reserved_count
         .fetch_sub(n - sent_batches, Ordering::AcqRel);
     }
+    #[cfg(rzmq_verif)]
+    crate::verif::point("rpq.batch.rolled_back");
 
     // Guaranteed wakeup on 0→1 transition. ready_capacity >= max registered
     // pipes, so the spin almost never executes more than one iteration.
@@ -650,10 +680,14 @@ impl PipeMessageSender {
               Ok(()) => {
                 sent_batches += 1;
                 total_frames += frame_count;
+                #[cfg(rzmq_verif)]
+                crate::verif::point("rpq.fbatch.written");
                 let prev = slot.queued_count.fetch_add(1, Ordering::AcqRel);
                 if prev == 0 {
                   had_zero_transition = true;
                 }
+                #[cfg(rzmq_verif)]
+                crate::verif::point("rpq.fbatch.counted");
               }
               Err(TrySendError::Full(returned)) => {
                 items.push_front(returned);
